@@ -289,6 +289,8 @@ void OPN2::noteOn(size_t c, double tone)
 
     if(hertz < 0) // Avoid infinite loop
         return;
+    if(hertz > 131071.0) // Out of the range, also +inf on a huge note offset (infinite loop below)
+        hertz = 131071.0;
 
     double coef;
     switch(m_chipFamily)
